@@ -51,6 +51,8 @@ PLAN = {
             {"name": "miri-drops", "flavour": "miri", "shards": 4, "shards_thorough": 32, "miriflags": TB + " " + IGN, "timeout": 1200},
             {"name": "memcheck", "leg": "asan", "flavour": "memcheck", "shards": 2, "shards_thorough": 8, "scale_thorough": 10, "timeout": 1800},
             {"name": "memcheck-drops", "leg": "asan-drops", "flavour": "memcheck", "shards": 2, "shards_thorough": 8, "scale_thorough": 10, "timeout": 1800},
+            {"name": "gate-big", "flavour": "native", "shards": 1, "shards_thorough": 4},
+            {"name": "memcheck-gate-big", "leg": "gate-big", "flavour": "memcheck", "shards": 1, "shards_thorough": 2, "timeout": 1800},
         ],
     },
     "C13": {
